@@ -235,6 +235,12 @@ where
     while let Some(res) = poll_fn(|cx| body.as_mut().poll_next(cx)).await {
         let mut chunk = res.map_err(|err| DispatchError::ResponseBody(err.into()))?;
 
+        // An empty chunk carries no data. Reserving zero capacity for it would never be answered by
+        // a capacity event from h2, so the stream would stall; skip it and poll the next chunk.
+        if chunk.is_empty() {
+            continue;
+        }
+
         'send: loop {
             let chunk_size = cmp::min(chunk.len(), CHUNK_SIZE);
 
